@@ -22,6 +22,7 @@ const rule = "tree: random interval sequences (append, equal runs, out-of-order 
 	"e2e: per case one in-process server, 1-6 chunks, batches of 1/10/249/250/251/600 events, timestamp processes " +
 	"(monotone with equal runs, zero/negative, jittered, int64 extremes, spiky = growing with out-of-order events at the 250-record borders of the rebuild scan), index loss and rebuild, 10-25 RANGE queries with bounds at stored values +-{0,1} and open ends; " +
 	"half of the dropwrite cases: index loss, restart, a write that the rebuilder serves before the chunk writer has flushed it, ranges over the new records; " +
+	"stream cursor: one kept chkSelector and two cached cursors continued across write batches (ranges ahead of the data and cutting it); " +
 	"ci: every third case rebuilds an index by scanning non-monotone chunks or a chunk whose last announced records are not readable yet. " +
 	"non-trivial iff (tree) the tree has >= 3 records and a merge or a second level happened, (ci) an index with >= 2 intervals was queried strictly inside its hull, " +
 	"(e2e) some chunk has >= 2 index points and some range cuts strictly inside the hull of a chunk, (iw) the batch has >= 2 distinct timestamps"
